@@ -27,7 +27,7 @@ class C08(LoopCheck):
                 # checkpoint (bytes, and the live dictionary kept in memory)
                 if c["n_final"] or c["schedule"] not in ("fixed2", "adaptive_half") or (tier == "quick" and c["schedule"] != "fixed2"):
                     continue
-                c["routes"] = ["bytes", "live_dict"]
+                c["routes"] = ["bytes", "live_dict", "live_after_fault"]
                 c["resume_n_samples_delta"] = 1
             if c["flow"] == "twice" and (c["n_final"] or c["schedule"] not in ("fixed2",)):
                 continue
